@@ -2,7 +2,7 @@
 from .. import gen_schema as gs
 from .. import gen_values as gv
 from .. import vjudge
-from ..wire import Obj, Num, parse_ordered, from_tagged, canon
+from ..wire import Obj, Num, parse_ordered, from_tagged, canon, to_text
 
 ID = "C15"
 N_QUICK = 5000
@@ -21,6 +21,14 @@ RULE += (". Widened (~8% of the operations): the same laws for TYPED container i
          "required), with every subset of them present. Judged against the statement (present values untouched, inserted = declared default "
          "completed, idempotent) and, in the harness, no container of the result reachable twice (inserted defaults alias neither each "
          "other nor a present value); the untyped twin of every typed instance also runs against the model")
+RULE += (". Widened (~6%): schemas BUILT IN GO whose Default fields (json.RawMessage, kept verbatim) spell their value with "
+         "insignificant whitespace — text that starts on its own line, indented, blanks after ':' and ',', trailing newline (harness "
+         "argument rawDefaults: after Unmarshal of the document the Default of the named subschemas is replaced by the given bytes, which "
+         "must compact to the declared default) — for object, array and scalar defaults, with own defaults on intermediate objects more "
+         "frequent (0.7 instead of 0.3); the document, which the model and the oracle read, is unchanged. And: `$ref` beside `properties` "
+         "/ `required` / `default` on object subschemas at every depth incl. the root (draft-07 documents: ~30% of the object "
+         "subschemas, where the siblings of $ref are ignored by validation but ApplyDefaults still walks `properties` and must still "
+         "withhold required properties; 2020-12: ~8%), targets {} / {type: object} / a number leaf")
 PREFILTER = vjudge.prefilter
 
 
@@ -28,15 +36,19 @@ def scalar_default(rng):
     return rng.choice([Num("1"), Num("0"), "s", "", True, False, None, [Num("1")], [], Num("2.5")])
 
 
-def gen_obj_schema(rng, depth, bad_default_p=0.08, dk="$defs"):
+def gen_obj_schema(rng, depth, bad_default_p=0.08, dk="$defs", ref_p=0.0, own_default_p=0.3):
     o = Obj([("type", "object")] if rng.random() < 0.5 else [])
+    if ref_p and rng.random() < ref_p:
+        # `$ref` beside `properties` / `required`: in draft-07 validation looks at nothing but the reference; ApplyDefaults walks
+        # `properties` all the same, and a required property stays unfilled all the same
+        o.kvs.insert(rng.randint(0, len(o.kvs)), ("$ref", "#/%s/%s" % (dk, rng.choice(["any", "any", "obj", "leaf"]))))
     props = Obj()
     names = rng.sample(gs.NAMES, rng.randint(1, 3))
     for k in names:
         r = rng.random()
         if depth > 0 and r < 0.45:
-            sub = gen_obj_schema(rng, depth - 1, bad_default_p, dk)
-            if rng.random() < 0.3:
+            sub = gen_obj_schema(rng, depth - 1, bad_default_p, dk, ref_p, own_default_p)
+            if rng.random() < own_default_p:
                 # an own default on an intermediate object: partial object, completed by nested defaults
                 dv = Obj([(kk, scalar_default(rng)) for kk in rng.sample(gs.NAMES, rng.randint(0, 2))])
                 sub.set("default", dv if rng.random() < 0.85 else scalar_default(rng))
@@ -175,6 +187,43 @@ def typed_case(rng):
     return {"op": "defaults", "args": {"schema": root, "insts": jinsts, "ginsts": ginsts}, "meta": {"typed": T}}
 
 
+WS = [" ", "\n", "\t", "\r\n", "\n  ", "  ", "\n\t", " \n "]
+
+
+def spell(rng, v, p=0.5):
+    """A JSON text of v with insignificant whitespace between its tokens (never inside a token)."""
+    def ws():
+        return rng.choice(WS) if rng.random() < p else ""
+    if isinstance(v, list):
+        return "[" + ws() + (ws() + "," + ws()).join(spell(rng, x, p) for x in v) + ws() + "]"
+    if isinstance(v, Obj):
+        return "{" + ws() + (ws() + "," + ws()).join(to_text(k) + ws() + ":" + ws() + spell(rng, x, p) for k, x in v.kvs) + ws() + "}"
+    return to_text(v)
+
+
+def raw_defaults(rng, root):
+    """rawDefaults entries (see harness/ops_validate.go) for a share of the subschemas below `properties` that declare a default."""
+    found = []
+
+    def walk(s, path):
+        if not isinstance(s, Obj):
+            return
+        if s.get("default", KeyError) is not KeyError:
+            found.append((path, s.get("default")))
+        props = s.get("properties")
+        if isinstance(props, Obj):
+            for k, sub in props.kvs:
+                walk(sub, path + [k])
+    walk(root, [])
+    out = []
+    for path, d in found:
+        if rng.random() < 0.75:
+            lead = rng.choice(WS) if rng.random() < 0.8 else ""
+            trail = rng.choice(WS) if rng.random() < 0.5 else ""
+            out.append({"path": path, "text": lead + spell(rng, d, rng.choice([0.0, 0.3, 0.6])) + trail})
+    return out
+
+
 def gen(rng, tier, n):
     ops = []
     while len(ops) < n:
@@ -185,8 +234,20 @@ def gen(rng, tier, n):
             continue
         d7 = rng.random() < 0.2
         dk = "definitions" if d7 else "$defs"
-        root = gen_obj_schema(rng, rng.choice([1, 2, 3, 4 if tier == "thorough" else 3]), dk=dk)
-        root.set(dk, Obj([("leaf", Obj([("default", Num("1")), ("type", "number")] + ([("minimum", Num("1"))] if rng.random() < 0.3 else [])))]))
+        respell = rng.random() < 0.06
+        root = gen_obj_schema(rng, rng.choice([1, 2, 3, 4 if tier == "thorough" else 3]), dk=dk, ref_p=0.3 if d7 else 0.08,
+                              own_default_p=0.7 if respell else 0.3)
+        root.set(dk, Obj([("leaf", Obj([("default", Num("1")), ("type", "number")] + ([("minimum", Num("1"))] if rng.random() < 0.3 else []))),
+                          ("any", Obj()), ("obj", Obj([("type", "object")]))]))
+        if respell:
+            if rng.random() < 0.3:
+                root.set("default", Obj([(kk, scalar_default(rng)) for kk in rng.sample(gs.NAMES, rng.randint(0, 2))]))
+            if d7:
+                root.kvs.insert(0, ("$schema", rng.choice(gs.D7_URIS)))
+            insts = [gen_inst(rng, root) for _ in range(5)] + [Obj()]
+            rds = raw_defaults(rng, root)
+            ops.append({"op": "defaults", "args": {"schema": root, "insts": insts, "rawDefaults": rds}, "meta": {"respelled": len(rds), "d7": d7}})
+            continue
         if d7:
             root.kvs.insert(0, ("$schema", rng.choice(gs.D7_URIS)))
             insts = [gen_inst(rng, root) for _ in range(5)] + [Obj()]
